@@ -40,6 +40,7 @@ type plan struct {
 	enumK  int
 	win    int
 	off    int
+	dir    int // which Tan db inside a window whose dbs are visited in Go map order
 	torn   bool
 	fired  bool
 }
@@ -127,6 +128,34 @@ func (h *harness) hit() bool {
 	return h.win == h.plan.win && h.elig == h.plan.off
 }
 
+// inTarget: inside a window in which Tan walks its dbs in map order (close)
+// only the operations on one db - picked by the plan - are fault points, so
+// that the fault lands on the same operation whatever the order. Enumeration
+// skips such windows; sampling covers them.
+func (h *harness) inTarget(path string) bool {
+	if !h.unordered {
+		return true
+	}
+	if h.plan.enumK > 0 {
+		return false
+	}
+	var dirs []string
+	seen := map[string]bool{}
+	for _, p := range h.pairs {
+		d := fmt.Sprintf("%s/tandb/node-%d-%d/", dataDir, p.ShardID, p.ReplicaID)
+		if h.kind == kTanMux {
+			d = fmt.Sprintf("%s/tandb/shard-%d/", dataDir, p.ShardID%16)
+		}
+		if !seen[d] {
+			seen[d] = true
+			dirs = append(dirs, d)
+		}
+	}
+	sort.Strings(dirs)
+	t := dirs[h.plan.dir%len(dirs)]
+	return strings.HasPrefix(path+"/", t)
+}
+
 func (h *harness) isTanLog(path string) bool {
 	return !h.kind.isPebble() && strings.HasSuffix(path, ".log")
 }
@@ -155,7 +184,7 @@ func (h *harness) FSOp(d *simfs.Disk, op simfs.Op, path string, size int, index 
 	}
 	switch h.mode {
 	case "crash":
-		if !op.Mutating() {
+		if !op.Mutating() || !h.inTarget(path) {
 			return nil, 0
 		}
 		if h.kind.isPebble() && goid() != h.mainG &&
@@ -172,6 +201,9 @@ func (h *harness) FSOp(d *simfs.Disk, op simfs.Op, path string, size int, index 
 			h.fireCrash(fmt.Sprintf("before %s %s during %s (window %d event %d)", op, path, h.curKind, h.win, h.elig))
 		}
 	case "ioerr":
+		if !h.inTarget(path) {
+			return nil, 0
+		}
 		if goid() != h.mainG {
 			// a failing operation on a goroutine of the store (Tan's per save
 			// sync goroutines, Pebble's flush/compaction) makes that goroutine
@@ -713,7 +745,9 @@ func mixes(before, after *RefReplica) []*RefReplica {
 		if mask&8 != 0 {
 			a := after.Clone()
 			m.Ents, m.Floor, m.Last, m.Ghost, m.Opt = a.Ents, a.Floor, a.Last, a.Ghost, a.Opt
+			m.ProbeAll = after.Removed
 		}
+		m.MaxEver = max64(before.MaxEver, after.MaxEver)
 		out = append(out, m)
 	}
 	return out
@@ -1081,16 +1115,6 @@ func quiet() {
 // Run executes one simulated run.
 func Run(ctx *runner.Ctx) *runner.Result {
 	quiet()
-	if os.Getenv("LOGSTORE_DEBUG_GOROUTINES") != "" {
-		time.Sleep(20 * time.Millisecond)
-		fmt.Fprintf(os.Stderr, "goroutines at start=%d\n", runtime.NumGoroutine())
-		if runtime.NumGoroutine() > 4 && os.Getenv("LOGSTORE_DEBUG_GOROUTINES") == "2" {
-			buf := make([]byte, 1<<20)
-			n := runtime.Stack(buf, true)
-			fmt.Fprintf(os.Stderr, "%s\n", buf[:n])
-			os.Exit(3)
-		}
-	}
 	kind, ok := parseKind(ctx.Param("store", "tan"))
 	if !ok {
 		panic("logstore: unknown store " + ctx.Param("store", ""))
@@ -1297,5 +1321,6 @@ func (h *harness) drawPlan(from int) {
 		h.plan.off = 1 + h.src.Intn(80)
 	}
 	h.plan.torn = h.src.Chance(1, 2)
-	h.ctx.Ev("plan", uint64(h.plan.win), uint64(h.plan.off), b2u(h.plan.torn))
+	h.plan.dir = h.src.Intn(4)
+	h.ctx.Ev("plan", uint64(h.plan.win), uint64(h.plan.off), b2u(h.plan.torn), uint64(h.plan.dir))
 }
